@@ -21,6 +21,100 @@ def spec(x):
     return ("reject",)
 
 
+# Python refuses int <-> decimal str conversions beyond 4300 digits (the limit
+# is process-wide, so the harness must not lift it: the code under test would
+# see the lifted limit too).  The harness converts in chunks instead.
+LIMIT = 4300
+_CH = 1000
+
+
+def big_str(n):
+    """Decimal text of an integer of any size (chunked; no digit limit)."""
+    if n < 0:
+        return "-" + big_str(-n)
+    parts = []
+    base = 10 ** _CH
+    while True:
+        n, r = divmod(n, base)
+        if n == 0:
+            parts.append(str(r))
+            break
+        parts.append(f"{r:0{_CH}d}")
+    return "".join(reversed(parts))
+
+
+def big_int(s):
+    """Value of a string of ASCII decimal digits of any length."""
+    v = 0
+    head = len(s) % _CH
+    if head:
+        v = int(s[:head])
+    for i in range(head, len(s), _CH):
+        v = v * 10 ** _CH + int(s[i:i + _CH])
+    return v
+
+
+def enc(x):
+    """JSON-safe text of an argument value (huge integers in hexadecimal)."""
+    if isinstance(x, str):
+        return x
+    return hex(x) if x.bit_length() > 13000 else str(x)
+
+
+def dec_int(t):
+    return int(t, 16) if t.lstrip("-").startswith("0x") else int(t)
+
+
+def safe(v):
+    """Detail values for a replay file: no integer json could not print."""
+    if isinstance(v, int) and not isinstance(v, bool) and \
+            v.bit_length() > 13000:
+        return "int:" + hex(v)[:40] + f"...({v.bit_length()} bits)"
+    if isinstance(v, str) and len(v) > 200:
+        return v[:40] + f"...({len(v)} chars)"
+    if isinstance(v, (list, tuple)):
+        return [safe(i) for i in v]
+    if isinstance(v, dict):
+        return {k: safe(i) for k, i in v.items()}
+    return v
+
+
+def _pow2_with_digits(nd):
+    """The smallest power of two whose decimal text has nd digits."""
+    k = max(0, int((nd - 1) / 0.30102999566398120) - 2)
+    while len(big_str(1 << k)) < nd:
+        k += 1
+    return 1 << k
+
+
+def huge_values():
+    """Values around the interpreter's 4300-digit conversion limit: digit
+    strings of 4299 / 4300 / 4301 / 10000 digits (all nines, 1 followed by
+    zeros, decimal text of a power of two, a zero-padded 16384 / 16385) and
+    integers 10^4299 .. 10^5000 (+-1), powers of two next to the limit (+-1),
+    negative ones."""
+    out = []
+    for nd in (4299, 4300, 4301, 10000):
+        out.append("9" * nd)
+        out.append("1" + "0" * (nd - 1))
+        out.append(big_str(_pow2_with_digits(nd)))
+        out.append("0" * (nd - 5) + "16384")
+        out.append("0" * (nd - 5) + "16385")
+    for e in (4299, 4300, 4301, 5000):
+        for d in (-1, 0, 1):
+            out.append(10 ** e + d)
+    for nd in (4300, 4301):
+        p2 = _pow2_with_digits(nd)
+        out += [p2 - 1, p2, p2 + 1]
+    out += [1 << 14300, (1 << 14300) + 1, 3 << 14300, -(10 ** 5000),
+            -(1 << 14300)]
+    return out
+
+
+# strings that are also sub-command words of the command line
+CLI_WORDS = ["m", "new", "info", "edit", "check", "create", "magnet",
+             "rename", "rebuild", "recheck"]
+
 STRINGS = ["", " ", " 14", "14 ", "+14", "-14", "1e5", "0x10", "16_384", "²",
            "१४", "1.5", "14.0", "abc", "16384k", "١٤", "1٤", "⑭", "½", "Ⅷ",
            "14\n", "\t14", "0b1", "١٦٣٨٤", "𝟏𝟒", "16384 ", "3²"]
@@ -31,7 +125,13 @@ def string_spec(s):
     integer; other strings are rejected; a string of non-ASCII decimal digits
     may be read as int() reads it or be rejected."""
     if s.isascii() and s.isdigit():
-        return spec(int(s))
+        sp = spec(big_int(s))
+        if len(s) > LIMIT and sp[0] == "accept":
+            # more digits than the interpreter converts: reading the number
+            # (then the value must be right) and rejecting it with the
+            # piece-length error are both taken as conforming
+            return ("either", sp[1])
+        return sp
     if s.isdigit() or s.isdecimal() or s.isnumeric():
         try:
             v = int(s)
@@ -107,14 +207,58 @@ class PieceLenCheck:
             "get_piece_length: every size <= 2^22 (quick) / 2^26 (thorough) "
             "and c*2^e+d families up to 2^60; monotone along the sorted "
             "enumerated domain",
+            "values around the interpreter's 4300-digit int<->str limit "
+            "(digit strings of 4299 / 4300 / 4301 / 10000 digits: nines, "
+            "10^n, a power of two, zero-padded 16384 / 16385; integers "
+            "10^4299..10^5000 +-1, powers of two next to the limit +-1, "
+            "2^14300, negative ones) through the validator, the library "
+            "creator, the CLI and the config file (rejected values only "
+            "end-to-end); a digit string of more than 4300 digits that "
+            "denotes a valid value may be read as that value or rejected "
+            "with the piece-length error, every invalid one must be rejected "
+            "with the piece-length error like any other value",
+            "piece-length values that are sub-command words (m, new, info, "
+            "edit, ...) are ordinary non-numeric strings through the library, "
+            "the config file and `create ... --piece-length <word>`; on a "
+            "command line WITHOUT the create word such a value makes the "
+            "argument parser refuse the whole command line (SystemExit 2, "
+            "usage error) before anything is taken as a piece length: that "
+            "outcome is recorded, not judged as 'rejected with the wrong "
+            "error' (the quantifier is over values given 'as the piece-length "
+            "argument'; here the command line is not understood as a create "
+            "command at all); that no metafile appears IS judged, and every "
+            "other outcome of that route is judged like the explicit route",
+            "automatic choice, end to end, against what already lies at the "
+            "output path: {nothing, an unrelated file, a conformant metafile "
+            "of the same info.name with piece length 16 KiB / 32 MiB / the "
+            "exponent-like value 20, a 32 MiB one of another name, the tool's "
+            "own metafile made by the same route when the same content path "
+            "held 1 byte} x {library outfile= keyword, CLI -o, config `out`} "
+            "x payload sizes {1, 16384001, 32768001} (thorough: six sizes, "
+            "two payload forms) x three creators; the choice must be a power "
+            "of two in [2^14, 2^24] and monotone over the union of all these "
+            "observations (equal payloads: equal choices)",
         ]
         self.rule = (
             "exhaustive integer intervals + structured families; state = one "
             "distinct argument value; transition = one call of the real "
-            "validator / creator / CLI; oracle = arithmetic specification")
+            "validator / creator / CLI; oracle = arithmetic specification; "
+            "automatic choice end to end: product payload size x on-disk "
+            "form and prior content of the output path x route x creator, "
+            "judged for range and for monotonicity over the union")
 
     def groups(self, tier, seed):
         gs = []
+        # values around the interpreter's 4300-digit int <-> str limit
+        gs.append({"kind": "huge"})
+        # (long groups early) automatic choice against what already lies at
+        # the output path
+        for creator in ("Assembler3", "Assembler2", "TorrentFile"):
+            gs.append({"kind": "auto-out", "seed": seed, "tier": tier,
+                       "creator": creator})
+        for route in ("lib", "cli", "config"):
+            gs.append({"kind": "e2e", "route": route, "seed": seed,
+                       "huge": True})
         top = 1 << (24 if tier == "quick" else 28)
         step = 1 << 20
         lo = -1024
@@ -149,7 +293,7 @@ class PieceLenCheck:
         except Exception as e:  # noqa
             return ("exc:" + type(e).__name__,)
 
-    def judge_value(self, res, x, sp, got, where):
+    def judge_value(self, res, x, sp, got, where, extra=None):
         res.evals += 1
         res.transitions += 1
         bad = None
@@ -165,17 +309,25 @@ class PieceLenCheck:
             bad = "wrong-exception:" + got[0][4:]
         if bad:
             cls = self.classify(x)
-            res.violation(f"C12|{where}|{bad}|{cls}",
-                          {"kind": "value", "x": x if isinstance(x, str)
-                           else str(x), "isstr": isinstance(x, str),
-                           "where": where}, {"got": got, "spec": sp})
+            case = {"kind": "value", "x": enc(x), "isstr": isinstance(x, str),
+                    "where": where}
+            if extra:
+                case.update(extra)
+            res.violation(f"C12|{where}|{bad}|{cls}", case,
+                          {"got": safe(list(got)), "spec": safe(list(sp))})
             res.outcomes[bad] += 1
         return bad
 
     @staticmethod
     def classify(x):
         if isinstance(x, str):
+            if len(x) > LIMIT and x.isascii() and x.isdigit():
+                return "digit-string>4300-digits"
+            if x in CLI_WORDS:
+                return "string-that-is-a-command-word"
             return "string"
+        if abs(x) >= 10 ** LIMIT:
+            return "integer>=10^4300" if x > 0 else "integer<=-10^4300"
         if x < 14:
             return "below-14"
         if x < 30:
@@ -255,8 +407,23 @@ class PieceLenCheck:
                     res.outcomes["ok"] += 1
             res.sample({"strings": STRINGS[:8]})
             return res
+        if kind == "huge":
+            for x in huge_values():
+                isstr = isinstance(x, str)
+                b = self.judge_value(res, x, string_spec(x) if isstr else
+                                     spec(x), self.call(x), "normalize-str"
+                                     if isstr else "normalize")
+                res.states += 1
+                res.validated += 1
+                if not b:
+                    res.outcomes["ok"] += 1
+            res.sample({"huge": "digit strings of 4299..10000 digits, "
+                                "integers 10^4299..10^5000"})
+            return res
         if kind == "e2e":
             return self.run_e2e(g, res)
+        if kind == "auto-out":
+            return self.run_auto_out(g, res)
         if kind == "auto-ints":
             f = tf.utils.get_piece_length
             prev = f(g["lo"])
@@ -362,6 +529,148 @@ class PieceLenCheck:
             return res
         raise ValueError(kind)
 
+    # --- automatic choice against what already lies at the output path
+    OUT_PRIORS = ["nothing", "unrelated", "meta-16k", "meta-32m",
+                  "meta-exp20", "meta-other-name", "own-small"]
+    OUT_ROUTES = ["lib-outfile", "cli-o", "config-out"]
+
+    @staticmethod
+    def _foreign_meta(name, pl):
+        """A small conformant single-file v1 metafile (reference encoder)."""
+        import hashlib
+        body = b"earlier payload"
+        return bencode.encode({
+            b"announce": b"http://tracker.invalid/announce",
+            b"created by": b"ref",
+            b"info": {b"length": len(body), b"name": name.encode(),
+                      b"piece length": pl,
+                      b"pieces": hashlib.sha1(body).digest()}})
+
+    def _create_auto(self, route, creator, p, out, parent):
+        """Create a metafile for p at out WITHOUT a piece length; the output
+        path is known to the creator from the start."""
+        ver = {"TorrentFile": "1", "Assembler2": "2", "Assembler3": "3"}[
+            creator]
+        tf.reset_process_state()
+        if route == "lib-outfile":
+            return tf.create(creator, p, out, None)
+        if route == "cli-o":
+            tf.execute(["create", p, "-o", out, "--prog", "0",
+                        "--meta-version", ver])
+        else:
+            cfg = os.path.join(parent, "c.ini")
+            with open(cfg, "w") as f:
+                f.write(f"[config]\nout = {out}\n")
+            tf.execute(["create", "--config", "--config-path", cfg,
+                        "--prog", "0", "--meta-version", ver, p])
+        with open(out, "rb") as f:
+            return f.read()
+
+    def run_auto_out(self, g, res):
+        """The automatic choice is a function of the payload alone: whatever
+        lies at the output path beforehand, the recorded value is a power of
+        two in [2^14, 2^24] and monotone over the UNION of all observations
+        (priors x routes x sizes)."""
+        creator = g["creator"]
+        # (the thresholds themselves are walked by the auto-e2e groups)
+        sizes = [1, 16384001, 32768001]
+        forms = ["file"]
+        if g.get("tier") == "thorough":
+            sizes = [1, 16384000, 16384001, 32768000, 32768001, 65536001]
+            forms = ["file", "dir3"]
+        obs = []     # (described size, pl, case)
+        for s in sizes:
+            for form in forms:
+                for route in self.OUT_ROUTES:
+                    for prior in self.OUT_PRIORS:
+                        parent = world.fresh_dir()
+                        out = os.path.join(parent, "o.torrent")
+                        case = {"kind": "auto-out", "size": s, "form": form,
+                                "prior": prior, "route": route,
+                                "creator": creator,
+                                "tier": g.get("tier", "quick")}
+                        ds = s
+                        try:
+                            if prior == "own-small":
+                                # the same content path when it was small,
+                                # its metafile made by the same route
+                                p = auto_payload(parent, form, 3 if form ==
+                                                 "dir3" else 1)
+                                self._create_auto(route, creator, p, out,
+                                                  parent)
+                                shutil.rmtree(p) if os.path.isdir(p) else \
+                                    os.remove(p)
+                            p = auto_payload(parent, form, s)
+                            name = os.path.basename(p)
+                            if prior == "unrelated":
+                                with open(out, "wb") as f:
+                                    f.write(b"not a metafile\n" * 40)
+                            elif prior.startswith("meta-"):
+                                pl0 = {"meta-16k": 1 << 14,
+                                       "meta-32m": 1 << 25, "meta-exp20": 20,
+                                       "meta-other-name": 1 << 25}[prior]
+                                nm = name + ".v0" if prior == \
+                                    "meta-other-name" else name
+                                with open(out, "wb") as f:
+                                    f.write(self._foreign_meta(nm, pl0))
+                            raw = self._create_auto(route, creator, p, out,
+                                                    parent)
+                            meta = bencode.decode(raw, strict=False)
+                            pl = meta[b"info"][b"piece length"]
+                            ds = sum(ln for _p, ln, pad, _l in
+                                     model.payload_layout(meta)[2] if not pad)
+                        except Exception as e:  # noqa
+                            pl = "raised:" + type(e).__name__
+                        shutil.rmtree(parent, ignore_errors=True)
+                        res.states += 1
+                        res.evals += 1
+                        res.transitions += 1
+                        res.validated += 1
+                        obs.append((ds, pl, case))
+        blamed = {}
+        for ds, pl, case in obs:
+            if not (isinstance(pl, int) and MIN <= pl <= 1 << 24 and
+                    pl & (pl - 1) == 0):
+                blamed[id(case)] = (case, {"got": pl, "why": "not a power of "
+                                           "two in [2^14, 2^24]"})
+        good = [o for o in obs if id(o[2]) not in blamed]
+        # every pair (a, b) with size(a) <= size(b) and choice(a) > choice(b)
+        # is a decrease along growing payloads; at least one member of every
+        # such pair is reported.  Which one: the observations with nothing at
+        # the output path are the chain the others are compared with, so a
+        # pair with one bare member names the other member; otherwise the
+        # larger payload, unless a member is already reported.
+        bare = lambda o: o[2]["prior"] == "nothing"
+        pairs = [(a, b) for a in good for b in good
+                 if a[0] <= b[0] and a[1] > b[1]]
+
+        def blame(c, o):
+            blamed.setdefault(id(c[2]), (c[2], {
+                "got": c[1], "described-size": c[0],
+                "why": "decreases along growing payloads",
+                "against": {"described-size": o[0], "got": o[1],
+                            "prior": o[2]["prior"],
+                            "route": o[2]["route"]}}))
+        for a, b in pairs:
+            if bare(a) and not bare(b):
+                blame(b, a)
+            elif bare(b) and not bare(a):
+                blame(a, b)
+            elif bare(a) and bare(b):
+                blame(b, a)
+        for a, b in pairs:
+            if id(a[2]) not in blamed and id(b[2]) not in blamed:
+                blame(b, a)
+        for ds, pl, case in obs:
+            if id(case) in blamed:
+                c, d = blamed[id(case)]
+                res.violation(f"C12|auto-e2e|bad-choice|out:{c['prior']}",
+                              c, d)
+            else:
+                res.outcomes["ok"] += 1
+        res.sample({"auto-out": creator, "observations": len(obs)})
+        return res
+
     def e2e_values(self):
         xs = set(range(-2, 71))
         for k in range(0, 41):
@@ -373,7 +682,8 @@ class PieceLenCheck:
                    "0x4000", "16384.0", "2**14", "15\n", " 15", "15 ", "+15",
                    "१५", "-15", "16_384"]
 
-    def run_e2e(self, g, res):
+    def run_e2e(self, g, res, only=None):
+        """only = enc() text of the one value to run (replay)."""
         route = g["route"]
         seed = g["seed"]
         parent = world.fresh_dir()
@@ -381,80 +691,138 @@ class PieceLenCheck:
         with open(payload, "wb") as f:
             f.write(world.content(seed, 0, 20000))
         n = 0
-        for x in self.e2e_values() + self.E2E_STRINGS:
-            if isinstance(x, str):
-                sp = string_spec(x)
-                if route == "config":
-                    # configparser strips surrounding whitespace itself
-                    sp = string_spec(x.strip())
-                if route != "lib" and x.startswith("-"):
-                    continue   # argparse would read it as an option
-                forms = [x]
-            else:
-                sp = spec(x)
-                forms = [x] if route == "lib" else []
-                if x >= 0:
-                    forms.append(str(x))
-                elif route != "lib":
+        if g.get("huge"):
+            values = huge_values()
+        else:
+            values = self.e2e_values() + self.E2E_STRINGS + CLI_WORDS
+        subroutes = [route]
+        if route == "cli" and not g.get("huge"):
+            subroutes.append("cli-implicit")
+        for sub in subroutes:
+            if sub == "cli-implicit":
+                # no `create` word: the command line is taken as a create
+                # command unless some argument equals a sub-command word
+                values = CLI_WORDS + ["abc", "15", "16385", "14 "]
+            for x in values:
+                if only is not None and enc(x) != only:
                     continue
-            if sp[0] != "reject" and sp[1] > (1 << 24):
-                continue
-            for arg in forms:
-                if route == "lib" and not arg:
-                    continue   # falsy = not supplied
-                n += 1
-                out = os.path.join(parent, f"o{n}.torrent")
-                tf.reset_process_state()
-                try:
-                    if route == "lib":
-                        tf.create("TorrentFile", payload, out, arg)
-                    elif route == "cli":
-                        tf.execute(["create", payload, "-o", out,
-                                    "--piece-length", arg, "--prog", "0"])
+                if isinstance(x, str):
+                    sp = string_spec(x)
+                    if route == "config":
+                        # configparser strips surrounding whitespace itself
+                        sp = string_spec(x.strip())
+                    if route != "lib" and x.startswith("-"):
+                        continue   # argparse would read it as an option
+                    forms = [x]
+                else:
+                    sp = spec(x)
+                    forms = [x] if route == "lib" else []
+                    if x >= 0:
+                        forms.append(big_str(x))
+                    elif route != "lib":
+                        continue
+                if sp[0] != "reject" and sp[1] > (1 << 24):
+                    continue
+                for arg in forms:
+                    if route == "lib" and not arg:
+                        continue   # falsy = not supplied
+                    n += 1
+                    out = os.path.join(parent, f"o{n}.torrent")
+                    tf.reset_process_state()
+                    try:
+                        if route == "lib":
+                            tf.create("TorrentFile", payload, out, arg)
+                        elif sub == "cli-implicit":
+                            tf.execute([payload, "-o", out, "--piece-length",
+                                        arg, "--prog", "0"])
+                        elif route == "cli":
+                            tf.execute(["create", payload, "-o", out,
+                                        "--piece-length", arg, "--prog", "0"])
+                        else:
+                            cfg = os.path.join(parent, f"c{n}.ini")
+                            with open(cfg, "w") as f:
+                                f.write(f"[config]\npiece-length = {arg}\n")
+                            tf.execute(["create", "--config", "--config-path",
+                                        cfg, "-o", out, "--prog", "0",
+                                        payload])
+                        with open(out, "rb") as f:
+                            pl = bencode.decode(f.read(), strict=False)[
+                                b"info"][b"piece length"]
+                        got = ("ok", pl)
+                    except tf.utils.PieceLengthValueError:
+                        got = ("plve",)
+                    except BaseException as e:  # noqa
+                        got = ("exc:" + type(e).__name__,)
+                    res.states += 1
+                    res.validated += 1
+                    extra = {"huge": True} if g.get("huge") else None
+                    if sub == "cli-implicit" and arg in CLI_WORDS and \
+                            got[0] == "exc:SystemExit":
+                        # the parser's usage error: the command line as a
+                        # whole was not understood as a create command, the
+                        # value was never taken as a piece length.  Recorded,
+                        # not judged (see `assumptions`); that no metafile
+                        # appears is judged below.
+                        res.outcomes["implicit-create:command-word:"
+                                     "usage-error"] += 1
+                        res.evals += 1
+                        res.transitions += 1
                     else:
-                        cfg = os.path.join(parent, f"c{n}.ini")
-                        with open(cfg, "w") as f:
-                            f.write(f"[config]\npiece-length = {arg}\n")
-                        tf.execute(["create", "--config", "--config-path",
-                                    cfg, "-o", out, "--prog", "0", payload])
-                    with open(out, "rb") as f:
-                        pl = bencode.decode(f.read(), strict=False)[
-                            b"info"][b"piece length"]
-                    got = ("ok", pl)
-                except tf.utils.PieceLengthValueError:
-                    got = ("plve",)
-                except BaseException as e:  # noqa
-                    got = ("exc:" + type(e).__name__,)
-                res.states += 1
-                res.validated += 1
-                bad = self.judge_value(res, arg,
-                                       string_spec(arg.strip() if route ==
-                                                   "config" else arg)
-                                       if isinstance(arg, str) else sp, got,
-                                       "e2e-" + route)
-                if got[0] != "ok" and os.path.exists(out):
-                    res.violation(f"C12|e2e-{route}|metafile-written-despite-"
-                                  "rejection", {"kind": "e2e", "x": str(arg),
-                                                "route": route}, None)
-                if not bad:
-                    res.outcomes["ok"] += 1
-        res.sample({"e2e": route, "values": n})
+                        bad = self.judge_value(
+                            res, arg, string_spec(arg.strip() if route ==
+                                                  "config" else arg)
+                            if isinstance(arg, str) else sp, got,
+                            "e2e-" + sub, extra)
+                        if not bad:
+                            res.outcomes["ok"] += 1
+                    if got[0] != "ok" and os.path.exists(out):
+                        res.violation(
+                            f"C12|e2e-{sub}|metafile-written-despite-"
+                            "rejection", {"kind": "value", "x": enc(arg),
+                                          "isstr": isinstance(arg, str),
+                                          "where": "e2e-" + sub,
+                                          "huge": bool(g.get("huge"))}, None)
+        res.sample({"e2e": route, "values": n, "huge": bool(g.get("huge"))})
         return res
 
     def replay(self, case):
-        if case["kind"] == "value":
-            x = case["x"] if case["isstr"] else int(case["x"])
+        if case["kind"] in ("value", "e2e"):
+            if "isstr" not in case:      # replay files of earlier rounds
+                case = dict(case, isstr=True, where="e2e-" + case["route"])
+            x = case["x"] if case["isstr"] else dec_int(case["x"])
             sp = string_spec(x) if case["isstr"] else spec(x)
             res = core.Result()
             if case["where"].startswith("normalize"):
                 self.judge_value(res, x, sp, self.call(x), case["where"])
             else:
-                self.run_e2e({"route": case["where"][4:], "seed": 0}, res)
+                sub = case["where"][4:]
+                # a decimal string may stand for itself or for the integer
+                # it was derived from: run every value with this text
+                texts = {case["x"]}
+                if case["isstr"] and x.isascii() and x.isdigit():
+                    texts.add(enc(big_int(x)))
+                for t in sorted(texts):
+                    self.run_e2e({"route": sub.split("-")[0], "seed": 0,
+                                  "huge": case.get("huge")}, res, only=t)
                 res.violations = [v for v in res.violations
-                                  if v["case"].get("x") == case["x"]]
-            return [{"sig": v["sig"], "detail": v["detail"]}
-                    for v in res.violations]
+                                  if v["case"].get("x") == case["x"]
+                                  and v["case"].get("where") == case["where"]]
+            seen = set()
+            out = []
+            for v in res.violations:
+                if v["sig"] not in seen:
+                    seen.add(v["sig"])
+                    out.append({"sig": v["sig"], "detail": v["detail"]})
+            return out
         res = core.Result()
+        if case["kind"] == "auto-out":
+            res = self.run_group({"kind": "auto-out", "seed": 0,
+                                  "tier": case.get("tier", "quick"),
+                                  "creator": case["creator"]})
+            return [{"sig": v["sig"], "detail": v["detail"]}
+                    for v in res.violations
+                    if all(v["case"][k] == case[k]
+                           for k in ("size", "form", "prior", "route"))]
         if case["kind"] == "auto-e2e":
             res = self.run_group({"kind": "auto-e2e", "seed": 0,
                                   "tier": "thorough" if case["size"] > 4e7
